@@ -183,6 +183,10 @@ func (configgen *ConfigGeneratorImpl) deltaFromServices(key model.ConfigKey, pro
 		}
 		// Service exists. If the service update has port change, we need to the corresponding port clusters.
 		services = append(services, service)
+		// The update may change which DestinationRule applies to the host (e.g. the host is now provided by a
+		// service of another namespace). The service's clusters, including subsets, are rebuilt, so any subset
+		// cluster that is not rebuilt is really gone.
+		deletedClusters = append(deletedClusters, subsetClusters[service.Hostname.String()].UnsortedList()...)
 		for port, clusters := range servicePortClusters[service.Hostname.String()] {
 			// if this service port is removed, we can conclude that all its clusters (default and subsets) are removed.
 			if _, exists := service.Ports.GetByPort(port); !exists {
